@@ -1102,7 +1102,7 @@ func c17CompareAndSet(c *core.Ctx) {
 		switch x := n.(type) {
 		case *ast.AssignStmt:
 			for _, l := range x.Lhs {
-				if fn.Canon(l) == "recv.state" {
+				if _, isField := an.Unparen(l).(*ast.SelectorExpr); isField && fn.Canon(l) == "recv.state" {
 					writes = append(writes, x)
 				}
 			}
